@@ -123,3 +123,116 @@ def s1_sites(repo, modules: set[str] | None = None):
                     a, b = _effects(branches["GRAPH"].body), _effects(branches["GRAPHS"].body)
                     ok = a == b
                     yield f, head, ok, f"GRAPH branch does {sorted(a)} but GRAPHS branch does {sorted(b)}", f"GRAPH {sorted(a)} / GRAPHS {sorted(b)}"
+
+
+# ------------------------------------------------------------------------------------------------------
+# Shared rule S2 — scope-stack precedence (serves C03, C17): every lookup over the stack of per-graph
+# name tables gives the innermost binding.
+#
+# The stack is found from the code, not by name: the parameter of the graph deserializer on which
+# `.append(<table>)` and `.pop()` are both called, followed through calls that pass it on.  The order of
+# the stack is outer → inner (append pushes the inner scope).  Classified uses:
+#   for t in reversed(S): … break/return   first hit wins, inner first      → inner wins
+#   for t in S: d.update(t) / d[k] = …     last write wins, inner last      → inner wins
+#   {k: v for t in S for k, v in t.items()}                                  → inner wins (last wins)
+#   ChainMap(*reversed(S))                 first mapping wins                → inner wins
+# and the mirror images (first hit of a forward loop, last write of a reversed loop, ChainMap(*S),
+# reversed comprehension) make the OUTER binding win.
+# ------------------------------------------------------------------------------------------------------
+def _is_reversed_of(e, name: str) -> bool | None:
+    """True: reversed(name) / name[::-1]; False: name itself; None: something else."""
+    if isinstance(e, ast.Name) and e.id == name:
+        return False
+    if isinstance(e, ast.Call) and dotted_of(e.func) == "reversed" and len(e.args) == 1:
+        r = _is_reversed_of(e.args[0], name)
+        return None if r is None else not r
+    if isinstance(e, ast.Call) and dotted_of(e.func) in ("list", "tuple", "iter") and len(e.args) == 1:
+        return _is_reversed_of(e.args[0], name)
+    if isinstance(e, ast.Subscript) and isinstance(e.slice, ast.Slice) and e.slice.lower is None and e.slice.upper is None:
+        st = e.slice.step
+        r = _is_reversed_of(e.value, name)
+        if r is None:
+            return None
+        if st is None:
+            return r
+        if isinstance(st, ast.UnaryOp) and isinstance(st.op, ast.USub) and isinstance(st.operand, ast.Constant) and st.operand.value == 1:
+            return not r
+    return None
+
+
+def scope_stack_functions(repo, module: str = "onnx_ir.serde") -> dict[str, str]:
+    """{function key: parameter/variable name holding the scope stack}."""
+    m = repo.modules[module]
+    out: dict[str, str] = {}
+    funcs = {f.key: f for f in m.all_funcs}
+    for f in funcs.values():
+        for p in f.params:
+            pushed = popped = False
+            for n in own_nodes(f.node):
+                if isinstance(n, ast.Call) and isinstance(n.func, ast.Attribute) and isinstance(n.func.value, ast.Name) and n.func.value.id == p:
+                    pushed |= n.func.attr == "append"
+                    popped |= n.func.attr == "pop"
+            if pushed and popped:
+                out[f.key] = p
+    changed = True
+    while changed:
+        changed = False
+        for f in funcs.values():
+            if f.key not in out:
+                continue
+            s = out[f.key]
+            for n in own_nodes(f.node):
+                if not isinstance(n, ast.Call):
+                    continue
+                name = dotted_of(n.func)
+                g = m.functions.get(name) if name else None
+                if g is None or g.key in out:
+                    continue
+                for i, a in enumerate(n.args):
+                    if isinstance(a, ast.Name) and a.id == s and i < len(g.params):
+                        out[g.key] = g.params[i]
+                        changed = True
+                for k in n.keywords:
+                    if isinstance(k.value, ast.Name) and k.value.id == s and k.arg in g.params:
+                        out[g.key] = k.arg
+                        changed = True
+    return out
+
+
+def scope_precedence_sites(repo, module: str = "onnx_ir.serde"):
+    """[(FuncInfo, node, form, winner)] for every classified lookup over the scope stack; winner ∈ inner|outer."""
+    m = repo.modules[module]
+    funcs = {f.key: f for f in m.all_funcs}
+    sites = []
+    for key, s in scope_stack_functions(repo, module).items():
+        f = funcs[key]
+        for n in own_nodes(f.node):
+            if isinstance(n, ast.For):
+                r = _is_reversed_of(n.iter, s)
+                if r is None:
+                    continue
+                first_hit = any(isinstance(x, (ast.Break, ast.Return)) for b in n.body for x in ast.walk(b))
+                writes = any(
+                    (isinstance(x, ast.Call) and isinstance(x.func, ast.Attribute) and x.func.attr in ("update", "setdefault"))
+                    or (isinstance(x, (ast.Assign, ast.AugAssign)) and any(isinstance(t, ast.Subscript) for t in (x.targets if isinstance(x, ast.Assign) else [x.target])))
+                    for b in n.body for x in ast.walk(b))  # fmt: skip
+                setdef = any(isinstance(x, ast.Call) and isinstance(x.func, ast.Attribute) and x.func.attr == "setdefault" for b in n.body for x in ast.walk(b))
+                if first_hit:
+                    sites.append((f, n, f"first hit of `for … in {norm(n.iter)}`", "inner" if r else "outer"))
+                elif writes:
+                    last_wins = not setdef
+                    inner = (not r) if last_wins else r
+                    sites.append((f, n, f"{'last' if last_wins else 'first'} write of `for … in {norm(n.iter)}`", "inner" if inner else "outer"))
+            elif isinstance(n, (ast.DictComp, ast.ListComp, ast.GeneratorExp, ast.SetComp)):
+                r = _is_reversed_of(n.generators[0].iter, s)
+                if r is None:
+                    continue
+                if isinstance(n, ast.DictComp):
+                    sites.append((f, n, f"dict comprehension over `{norm(n.generators[0].iter)}` (last wins)", "outer" if r else "inner"))
+            elif isinstance(n, ast.Call) and (dotted_of(n.func) or "").split(".")[-1] == "ChainMap":
+                for a in n.args:
+                    if isinstance(a, ast.Starred):
+                        r = _is_reversed_of(a.value, s)
+                        if r is not None:
+                            sites.append((f, n, f"`{norm(n)}` (first mapping wins)", "inner" if r else "outer"))
+    return sites
